@@ -138,9 +138,18 @@ func intervals(fn *ssa.Function) *intervalResult {
 		res.overflow[in] = fmt.Sprintf("mathematical range %s exceeds %s %s: the value wraps", x, typeStr(t), r)
 		return r
 	}
+	for _, p := range fn.Params {
+		if x, ok := intervalParamItv[p]; ok {
+			res.vals[p] = x // what the call site knows (seen by the branch pruning below)
+		}
+	}
 	visits := map[*ssa.Phi]int{}
 	for iter := 0; iter < 200; iter++ {
 		changed := false
+		// branches the current ranges decide (`if modulus != 0` with modulus = 256 handed in): values that only flow in
+		// over a dead edge do not reach the phi. Ranges only grow from one round to the next, so an edge found dead in
+		// the final round was dead in every earlier one.
+		deadEdge := deadEdgeFunc(fn, res)
 		set := func(v ssa.Value, x itv) {
 			if old, ok := res.vals[v]; !ok || !old.eq(x) {
 				res.vals[v] = x
@@ -152,7 +161,10 @@ func intervals(fn *ssa.Function) *intervalResult {
 				switch in := in.(type) {
 				case *ssa.Phi:
 					x := itv{bottom: true}
-					for _, e := range in.Edges {
+					for i, e := range in.Edges {
+						if i < len(in.Block().Preds) && deadEdge(in.Block().Preds[i], in.Block()) {
+							continue
+						}
 						x = x.join(get(e))
 					}
 					if old, ok := res.vals[in]; ok && !old.bottom && !x.bottom {
@@ -380,6 +392,7 @@ func byteSumOps(fn *ssa.Function) []string {
 		return ok && (strings.Contains(phi.Comment, "rangeindex") || phi.Comment == "i")
 	}
 	adds := 0
+	paramCtx := map[*ssa.Parameter]itv{}
 	// the sum may live in helpers: look at the function and every module function it (transitively) calls
 	var fns []*ssa.Function
 	seenFn := map[*ssa.Function]bool{}
@@ -394,6 +407,21 @@ func byteSumOps(fn *ssa.Function) []string {
 			for _, in := range b.Instrs {
 				if c, ok := in.(ssa.CallInstruction); ok {
 					if callee := c.Common().StaticCallee(); callee != nil && ssaPkgOf(callee) == ssaPkgOf(fn) {
+						// constants handed to a helper (`byteSumMod(data, 256)`): what its parameters are on the sum path
+						for i, a := range c.Common().Args {
+							if i >= len(callee.Params) {
+								break
+							}
+							if k, isC := a.(*ssa.Const); isC && k.Value != nil && k.Value.Kind() == constant.Int {
+								f64, _ := constant.Float64Val(constant.ToFloat(k.Value))
+								pp := callee.Params[i]
+								if old, has := paramCtx[pp]; has {
+									paramCtx[pp] = old.join(point(f64))
+								} else {
+									paramCtx[pp] = point(f64)
+								}
+							}
+						}
 						collect(callee)
 					}
 				}
@@ -418,14 +446,49 @@ func byteSumOps(fn *ssa.Function) []string {
 	}
 	collect(fn)
 	var blocks []*ssa.BasicBlock
+	ivOf := map[*ssa.Function]*intervalResult{}
 	for _, f := range fns {
 		// (blocks behind a branch the value ranges rule out – an asserted invariant – are not part of the computation)
-		dead := deadBlocksByIntervals(f, intervals(f))
+		var set []*ssa.Parameter
+		for _, pp := range f.Params {
+			if x, has := paramCtx[pp]; has {
+				if _, already := intervalParamItv[pp]; !already {
+					intervalParamItv[pp] = x
+					set = append(set, pp)
+				}
+			}
+		}
+		ivOf[f] = intervals(f)
+		for _, pp := range set {
+			delete(intervalParamItv, pp)
+		}
+		dead := deadBlocksByIntervals(f, ivOf[f])
 		for _, b := range f.Blocks {
 			if !dead[b] {
 				blocks = append(blocks, b)
 			}
 		}
+	}
+	// the constant an operand is: a literal, or a value the ranges pin to one number (a parameter every call site on
+	// the sum path passes the same constant for)
+	constOf := func(in ssa.Instruction, v ssa.Value) (int64, bool) {
+		if c, ok := v.(*ssa.Const); ok && c.Value != nil && c.Value.Kind() == constant.Int {
+			return c.Int64(), true
+		}
+		if iv := ivOf[in.Parent()]; iv != nil {
+			w := v
+			for {
+				if cv, isCv := w.(*ssa.Convert); isCv {
+					w = cv.X
+					continue
+				}
+				break
+			}
+			if x, ok := iv.vals[w]; ok && !x.bottom && x.lo == x.hi {
+				return int64(x.lo), true
+			}
+		}
+		return 0, false
 	}
 	for _, b := range blocks {
 		for _, in := range b.Instrs {
@@ -441,16 +504,16 @@ func byteSumOps(fn *ssa.Function) []string {
 				case token.ADD:
 					adds++
 				case token.AND:
-					c, ok := in.Y.(*ssa.Const)
+					c, ok := constOf(in, in.Y)
 					if !ok {
-						c, ok = in.X.(*ssa.Const)
+						c, ok = constOf(in, in.X)
 					}
-					if !ok || c.Value == nil || c.Int64() != 0xFF {
+					if !ok || c != 0xFF {
 						bad = append(bad, fmt.Sprintf("mask %s is not & 0xFF", in.String()))
 					}
 				case token.REM:
-					c, ok := in.Y.(*ssa.Const)
-					if !ok || c.Value == nil || c.Int64() != 256 {
+					c, ok := constOf(in, in.Y)
+					if !ok || c != 256 {
 						bad = append(bad, fmt.Sprintf("reduction %s is not %% 256", in.String()))
 					}
 				default:
@@ -1577,6 +1640,10 @@ func deadEdgesByIntervals(fn *ssa.Function, iv *intervalResult) map[*ssa.If][2]b
 			always, never = x.hi < y.lo, x.lo >= y.hi
 		case token.LEQ:
 			always, never = x.hi <= y.lo, x.lo > y.hi
+		case token.NEQ:
+			always, never = x.hi < y.lo || x.lo > y.hi, x.lo == x.hi && y.lo == y.hi && x.lo == y.lo
+		case token.EQL:
+			always, never = x.lo == x.hi && y.lo == y.hi && x.lo == y.lo, x.hi < y.lo || x.lo > y.hi
 		default:
 			continue
 		}
@@ -1588,6 +1655,33 @@ func deadEdgesByIntervals(fn *ssa.Function, iv *intervalResult) map[*ssa.If][2]b
 }
 
 // deadBlocksByIntervals: the blocks of fn reachable only over edges the interval analysis rules out.
+// deadEdgeFunc: the control-flow edges the value ranges rule out (an edge out of a dead block, or the side of a decided
+// branch that is not taken).
+func deadEdgeFunc(fn *ssa.Function, iv *intervalResult) func(from, to *ssa.BasicBlock) bool {
+	edges := deadEdgesByIntervals(fn, iv)
+	if len(edges) == 0 {
+		return func(from, to *ssa.BasicBlock) bool { return false }
+	}
+	dead := deadBlocksByIntervals(fn, iv)
+	return func(from, to *ssa.BasicBlock) bool {
+		if dead[from] {
+			return true
+		}
+		if len(from.Instrs) == 0 {
+			return false
+		}
+		iff, ok := from.Instrs[len(from.Instrs)-1].(*ssa.If)
+		if !ok {
+			return false
+		}
+		d, has := edges[iff]
+		if !has || len(from.Succs) != 2 || from.Succs[0] == from.Succs[1] {
+			return false
+		}
+		return (to == from.Succs[0] && d[1]) || (to == from.Succs[1] && d[0])
+	}
+}
+
 func deadBlocksByIntervals(fn *ssa.Function, iv *intervalResult) map[*ssa.BasicBlock]bool {
 	edges := deadEdgesByIntervals(fn, iv)
 	dead := map[*ssa.BasicBlock]bool{}
